@@ -5,6 +5,7 @@ package main
 import (
 	"fmt"
 	"go/constant"
+	"go/token"
 	"go/types"
 	"strings"
 
@@ -117,16 +118,28 @@ func (ex *Exec) topEnv() *Env {
 		for i, p := range fr.fn.Params {
 			env.vars[p.Name()] = TV{fr.params[i], p.Type()}
 		}
-		for i, p := range fr.fn.FreeVars {
-			env.vars[p.Name()] = TV{fr.free[i], p.Type()}
-		}
 		return env
 	}
 	env := &Env{vars: map[string]TV{}, old: ex.entry, fr: fr, pkg: pkgOfFn(fr.fn)}
 	for n, v := range ex.paramVals {
+		if ex.isFreeVar(n) {
+			continue // captured variables are read through their cell in the state at hand
+		}
 		env.vars[n] = TV{v, ex.paramType(n)}
 	}
 	return env
+}
+
+func (ex *Exec) isFreeVar(n string) bool {
+	if ex.top == nil {
+		return false
+	}
+	for _, p := range ex.top.fn.FreeVars {
+		if p.Name() == n {
+			return true
+		}
+	}
+	return false
 }
 
 func pkgOfFn(fn *ssa.Function) *types.Package {
@@ -187,6 +200,8 @@ func (ex *Exec) eval(e Expr, st *State, env *Env) TV {
 		return TV{Sc{IStr(x.Val)}, tInt}
 	case EBool:
 		return TV{Sc{B(x.Val)}, tBool}
+	case EFloat:
+		return TV{Sc{ex.floatLit(constant.MakeFromLiteral(x.Val, token.FLOAT, 0))}, tFloat}
 	case EStr:
 		return TV{Sc{ex.strConst(x.Val)}, tString}
 	case EIdent:
@@ -263,6 +278,18 @@ func (ex *Exec) evalIdent(name string, st *State, env *Env) TV {
 	if fr := env.frame(); fr != nil {
 		if v, ok := ex.localByName(fr, st, name); ok {
 			return v
+		}
+	}
+	// captured variable of the closure under contract (or of the inlined closure at hand)
+	for _, fr := range []*Frame{env.frame(), ex.top} {
+		if fr == nil {
+			continue
+		}
+		for i, fv := range fr.fn.FreeVars {
+			if fv.Name() == name {
+				p := fr.free[i].(PtrV)
+				return TV{ex.loadIn(st, p), fv.Type().(*types.Pointer).Elem()}
+			}
 		}
 	}
 	switch name {
@@ -464,7 +491,9 @@ func (ex *Exec) evalBin(x EBin, st *State, env *Env) TV {
 	r := ex.eval(x.R, st, env)
 	switch x.Op {
 	case "==", "!=":
+		ex.specEq = true // logical equality in specifications (also on floats)
 		eq := ex.valuesEqual(l, r)
+		ex.specEq = false
 		if x.Op == "!=" {
 			eq = Not(eq)
 		}
@@ -507,7 +536,31 @@ func (ex *Exec) evalBin(x EBin, st *State, env *Env) TV {
 	panic(unsupported(fmt.Sprintf("spec: operator %s on %s, %s", x.Op, a.Sort, b.Sort)))
 }
 
+func isNilConst(v Value) bool {
+	s, ok := v.(Sc)
+	return ok && s.T.S == "0"
+}
+
 func (ex *Exec) valuesEqual(l, r TV) Term {
+	// interior / local pointers compared with nil
+	for _, pr := range [][2]Value{{l.V, r.V}, {r.V, l.V}} {
+		if p, ok := pr[0].(PtrV); ok {
+			other := pr[1]
+			if op, isP := other.(PtrV); isP && op.Kind == pObj && len(op.Path) == 0 && op.Ref.S == "0" {
+				other = Sc{I(0)}
+			}
+			if isNilConst(other) {
+				switch {
+				case p.Kind == pLocal || p.Kind == pGlobal:
+					return TFalse
+				case p.Kind == pObj && len(p.Path) > 0:
+					return Eq(p.Ref, I(0))
+				case p.Kind == pElem:
+					return Eq(p.Ref, I(0))
+				}
+			}
+		}
+	}
 	// slice == nil
 	if s, ok := l.V.(SliceV); ok {
 		if _, isSc := r.V.(Sc); isSc {
@@ -531,7 +584,7 @@ func (ex *Exec) valuesEqual(l, r TV) Term {
 	if a.Sort != b.Sort {
 		panic(unsupported(fmt.Sprintf("spec: comparing %s with %s", a.Sort, b.Sort)))
 	}
-	if a.Sort == SF64 {
+	if a.Sort == SF64 && !ex.specEq {
 		return ex.fbin("feq", a, b)
 	}
 	return Eq(a, b)
@@ -643,6 +696,31 @@ func (ex *Exec) evalCall(x ECall, st *State, env *Env) TV {
 		mt := m.T.Underlying().(*types.Map)
 		_, ok := ex.mapLookup(st, mt, sc(m.V), k.V)
 		return TV{Sc{ok}, tBool}
+	case "boxof": // the interface value holding e (as MakeInterface builds it)
+		v := arg(0)
+		tn := ""
+		if len(x.Args) > 1 {
+			tn = x.Args[1].(EStr).Val
+		} else if v.T != nil {
+			tn = typeName(v.T)
+		}
+		ts := ex.flatten(v.V)
+		var sorts []Sort
+		for _, tt := range ts {
+			sorts = append(sorts, tt.Sort)
+		}
+		name := "box." + sanitize(tn)
+		ex.vc.DeclareFun(name, sorts, SInt)
+		return TV{Sc{app(SInt, name, ts...)}, nil}
+	case "f2i": // f2i(x, "time.Duration"): the float -> integer conversion the code performs
+		a := sc(arg(0).V)
+		tn := x.Args[1].(EStr).Val
+		if ex.realFloats {
+			return TV{Sc{Ite(app(SBool, ">=", a, Term{"0.0", SReal}), app(SInt, "to_int", a), app(SInt, "-", app(SInt, "to_int", app(SReal, "-", a))))}, tInt}
+		}
+		name := "f2i." + sanitize(tn)
+		ex.vc.DeclareFun(name, []Sort{SF64}, SInt)
+		return TV{Sc{app(SInt, name, a)}, tInt}
 	case "int": // conversion no-op in specs
 		return TV{arg(0).V, tInt}
 	case "real", "float64":
